@@ -277,9 +277,9 @@ pub fn run(tier: Tier) -> i32 {
     let rep = Report::new("C15", tier);
     rep.set_rule("closure (breadth-first, no depth bound) of the real Encapsulator under the op alphabet: send(label in {two 6-byte, two 3-byte, broadcast, explicit re-use} x how in {complete, first fragment, encap_ext complete, encap_ext first fragment, fail: small buffer, fail: PDU too long, fail: protocol type, fail: buffer between the two header sizes, encap_ext fail: small buffer / PDU too long / extensions larger than a GSE packet}), zero label, reset, disable, enable, enable-with-max(N in {0,1,2,3,255}; thorough adds 4, 7, 128, 254); state = real encapsulator value + wire monitor; every emitted start/complete packet is judged by the monitor; distinct = (op kind, outcome)");
     rep.assume("the count of consecutive re-uses restarts when the re-use configuration is changed (the statement bounds re-uses 'with a maximum of N configured')");
-    rep.assume("label alphabet of 6 letters; N drawn from the listed values");
+    rep.assume("label alphabet of 8 letters (two 6-byte labels sharing their first three bytes, a 3-byte label equal to that prefix, the all-zero 3-byte label); N drawn from the listed values");
     let sys = Sys {
-        labels: vec![L6A, L6B, L3A, L3B, Lbl::Bcast, Lbl::ReUse],
+        labels: vec![L6A, L6B, L3A, L3B, L6P, L3Z, Lbl::Bcast, Lbl::ReUse],
         maxes: if tier.thorough() { vec![0, 1, 2, 3, 4, 7, 128, 254, 255] } else { vec![0, 1, 2, 3, 255] },
         hows: all_hows(),
         long_pdu: vec![0x11u8; 65536],
